@@ -739,6 +739,63 @@ def decoded_meta_cases(ctx):
     return n
 
 
+def foreign_text_cases(ctx):
+    """Text meta messages whose text is outside latin1 - read from a file in another charset, or built while that charset
+    was in force - are values like any other once the file is closed: copy (with and without overrides), freeze, thaw and
+    hash behave as for every other message, whatever charset is the default at the time."""
+    import io
+    import mido
+    from mido.midifiles.meta import meta_charset
+    n = 0
+    texts = {'utf-8': ['\u6b4c', '\u03a9mega \u20ac', 'caf\u00e9 \u2013 d\u00e9j\u00e0'], 'shift_jis': ['\u30ab\u30e9\u30aa\u30b1', '\u6b4c\u8a5e'],
+             'koi8-r': ['\u041f\u0440\u0438\u0432\u0435\u0442'], 'utf-16': ['\U0001d11e clef', '\u6b4c'], 'cp1252': ['\u20ac 5 \u2013 \u201cx\u201d']}
+    kinds = (('text', 'text'), ('lyrics', 'text'), ('track_name', 'name'), ('marker', 'text'), ('device_name', 'name'))
+    for cs, pool in texts.items():
+        for text in pool:
+            for t, attr in kinds:
+                for born in ('loaded', 'with-block', 'plain'):
+                    case = {'kind': 'foreign-text', 'charset': cs, 'type': t, 'text': text, 'born': born}
+                    try:
+                        if born == 'loaded':
+                            mid = mido.MidiFile(charset=cs)
+                            mid.add_track().append(MetaMessage(t, **{attr: text}, time=3))
+                            buf = io.BytesIO()
+                            mid.save(file=buf)
+                            m = mido.MidiFile(file=io.BytesIO(buf.getvalue()), charset=cs).tracks[0][0]
+                        elif born == 'with-block':
+                            with meta_charset(cs):
+                                m = MetaMessage(t, **{attr: text}, time=3)
+                        else:
+                            m = MetaMessage(t, **{attr: text}, time=3)
+                        before = snap(m)
+                        c = m.copy()
+                        c7 = m.copy(time=7)
+                        want7 = dict(vars(m), time=7)
+                        ctx.check('copy() == original, same class, new object', c == m and c is not m and type(c) is type(m), 'foreign-text-copy', case, repr(c))
+                        ctx.check('copy(**ov) == fresh construction', vars(c7) == want7 and type(c7) is type(m), 'foreign-text-copy-time', case,
+                                  lambda: repr(vars(c7)))
+                        other = text[::-1] + '!'
+                        co = m.copy(**{attr: other})
+                        ctx.check('copy(**ov) == fresh construction', vars(co) == dict(vars(m), **{attr: other}), 'foreign-text-copy-text', case,
+                                  lambda: repr(vars(co)))
+                        f = freeze_message(m)
+                        f7 = f.copy(time=7)
+                        ctx.check('freeze gives the frozen class, equal', f == m and isinstance(f, FrozenMetaMessage) and vars(f7) == want7
+                                  and type(f7) is type(f), 'foreign-text-frozen-copy', case, lambda: repr(vars(f7)))
+                        d = {f: 1}
+                        ctx.check('equal frozen => equal hash and dict key', d.get(freeze_message(c)) == 1 and hash(f) == hash(freeze_message(c)),
+                                  'foreign-text-key', case, None)
+                        tw = thaw_message(f)
+                        ctx.check('thaw(freeze(m)) == m', tw == m and type(tw) is type(m), 'foreign-text-thaw', case, repr(tw))
+                        c.time = 99
+                        setattr(c, attr, 'x')
+                        ctx.check('original unchanged', same(m, before), 'foreign-text-original-changed', case, repr(vars(m)))
+                    except Exception as exc:
+                        ctx.fail('no exception', f'foreign-text:{type(exc).__name__}', case, f'{type(exc).__name__}: {exc}')
+                    n += 1
+    return n
+
+
 def prefix_twin_cases(ctx):
     """Payloads of which one is the beginning of the other - (), (1, 2), (1, 2, 3) - make different messages: unequal as
     they are, unequal frozen, two dictionary keys; and a payload equals only what a tuple equals."""
@@ -824,6 +881,7 @@ def run(ctx):
         n += near_time_twin_cases(ctx)
     if ctx.shard == 2 % ctx.nshards:
         n += decoded_meta_cases(ctx)
+        n += foreign_text_cases(ctx)
     if ctx.shard == 3 % ctx.nshards:
         n += respec_case(ctx)
     if os.environ.get('VERIF_ENVMODE', 'default') in ('default', 'c-locale'):
